@@ -1155,6 +1155,11 @@ class Model:
                 else:
                     edges.append((_input, node))
 
+            if isinstance(node, Dist) and node.var is not None:
+                # a draw is assigned to the value node of the variable, which
+                # other nodes may use directly as an input
+                edges.append((node, node.var.value_node))
+
         graph = nx.DiGraph(edges)
         graph.add_nodes_from(nodes)
         return graph
